@@ -421,3 +421,103 @@ def _draw_dirichlet(run, s, alpha, n):
 @specfn('next_dirichlet')
 def _next_dirichlet(run, s, alpha, n):
     return OpaqueV(LC.next_dir(_rs(s), _seq(run, alpha, 'R').term, intterm(n)), 'rngstate')
+
+
+# ------------------------------------------------------------------------------ Thompson sampling
+bmap = F('binarized', Opaque, ASeq, RSeq, RSeq)      # [binarizer(d_i, r_i) for i]
+_b = z3.Const('b', Opaque)
+_d = z3.Const('d', ASeq)
+_r = z3.Const('r', RSeq)
+smt.axiom('binarized.len', smt.forall([_b, _d, _r], T.rlen(bmap(_b, _d, _r)) == T.rlen(_r), [bmap(_b, _d, _r)]),
+          ['binarized'])
+smt.axiom('binarized.at', smt.forall([_b, _d, _r, _i], T.rat(bmap(_b, _d, _r), _i) ==
+                                     LC.apply_bin(_b, T.aat(_d, _i), T.rat(_r, _i)), [T.rat(bmap(_b, _d, _r), _i)]),
+          ['binarized'])
+
+
+@specfn('binarized')
+def _binarized(run, b, d, r):
+    """rewards converted by the binarizer: binarizer(decision_i, reward_i) for every row"""
+    return SeqV('R', bmap(b.term, _seq(run, d, 'A').term, _seq(run, r, 'R').term))
+
+
+@specfn('binary')
+def _binary(run, r):
+    """every element is 0 or 1"""
+    return BoolV(T.rbinary(_seq(run, r, 'R').term))
+
+
+@specfn('beta_state')
+def _beta_state(run, s0, i, d_keys, succ, fail, size):
+    """stream state after the beta draws of the first i keys of d_keys (one draw of `size` values per key)"""
+    ks = _mapo(run, d_keys).keys
+    sc, fc = _mapo(run, succ).cols[''], _mapo(run, fail).cols['']
+    j = z3.Int('j!it')
+    sz = intterm(size)
+    arrs = [z3.Lambda([j], sc[T.aat(ks, j)]), z3.Lambda([j], fc[T.aat(ks, j)]), z3.Lambda([j], sz)]
+    f = F('iterx_next_beta', smt.Rng, Int, *[a.sort() for a in arrs], smt.Rng)
+    return OpaqueV(f(_rs(s0), intterm(i), *arrs), 'rngstate')
+
+
+@specfn('draw_beta')
+def _draw_beta(run, s, a, b, n):
+    return SeqV('R', LC.draw_beta(_rs(s), real(a), real(b), intterm(n)))
+
+
+@specfn('same_elems')
+def _same_elems(run, r, q):
+    """two real sequences of equal length with equal elements"""
+    r, q = _seq(run, r, 'R'), _seq(run, q, 'R')
+    j = z3.Int('j!se')
+    return BoolV(z3.And(T.rlen(r.term) == T.rlen(q.term),
+                        z3.ForAll([j], z3.Implies(z3.And(0 <= j, j < T.rlen(r.term)),
+                                                  T.rat(r.term, j) == T.rat(q.term, j)))))
+
+
+@form('msum_over')
+def _msum_over(run, n):
+    """msum_over(arms, lambda b: expr): sum of expr over the arms"""
+    s = _seq(run, run.ev(n.args[0]), 'A')
+    lam = n.args[1]
+    a = z3.Const('a!mso%d' % (id(lam) % 100000), Arm)
+    saved = run.frames[-1].env
+    run.frames[-1].env = dict(saved)
+    run.frames[-1].env[lam.args.args[0].arg] = ArmV(a)
+    try:
+        body = real(run.ev(lam.body))
+    finally:
+        run.frames[-1].env = saved
+    return Num(T.msum(s.term, z3.Lambda([a], body)))
+
+
+# ------------------------------------------------------------------------------------- warm start
+@specfn('fdist')
+def _fdist(run, metric, u, v):
+    return Num(LC.fdist(LC.opaque_of(metric), _seq(run, u, 'R').term, _seq(run, v, 'R').term))
+
+
+@specfn('inner')
+def _inner(run, d, a):
+    """inner dict d[a] of a dict of dicts"""
+    m = _mapo(run, d)
+    return run.st.alloc(MapO(m.cols['#keys'][a.term], {'': m.cols['#vals'][a.term]}, {'': 'real'}))
+
+
+@specfn('quantile_of')
+def _quantile(run, r, q):
+    return Num(LC.quantile(_seq(run, r, 'R').term, real(q)))
+
+
+@specfn('closest_distances')
+def _closest_distances(run, dft, sd):
+    """[min(d.values()) for d in dft.values() if min(d.values()) != self_distance], as the loop builds it"""
+    m = _mapo(run, dft)
+    j = z3.Int('j!it')
+    ks = m.cols['#keys'][T.aat(m.keys, j)]
+    vs = m.cols['#vals'][T.aat(m.keys, j)]
+    mn = LC.rmin(mvals(ks, vs))
+    sdt = real(sd)
+    cnd = z3.Lambda([j], z3.simplify(z3.Not(mn == sdt)))
+    val = z3.Lambda([j], mn)
+    f = F('iterx_if_rappend', RSeq, Int, cnd.sort(), val.sort(), RSeq)
+    return SeqV('R', f(T.rempty, T.alen(m.keys), cnd, val), True)
